@@ -11,7 +11,7 @@ CHECKS = {
  'C01': ('exploration',
          'bounded-exhaustive enumeration of memory images x environment answers on the real engines vs a reference machine',
          'Every image over a symbolic word alphabet (all address classes relative to the op, the IO cells, segment ends, '
-         'top of the address space) for several segment layouts, every 0/1/EOF input behaviour within the read bound, on '
+         'top of the address space) for several segment layouts (incl. several lazily-zero segments listed in descending address order), every 0/1/EOF input behaviour within the read bound, on '
          'featured(+trace)/fast/native with and without the last-ops ring at w=8/16/32/64; compared op by op with the '
          'reference machine (ip/flip/jump trace, IO calls, cause, op count, fault address). A coverage statement over a '
          'small scope, which is where per-op boundary bugs live.',
@@ -32,7 +32,7 @@ CHECKS = {
          'explicit-state search over the live device objects (deep-copied states, every method as a transition) vs a bit-packing / polling-protocol model',
          'Breadth-first search from every input of length <= 2 over a 10-byte alphabet, all sequences of read / write0 / write1 / '
          'get_output / get_output(allow_incomplete) up to depth 10 (12 thorough) on FixedIO and StandardIO (stdin/stdout replaced), '
-         'states de-duplicated by the full attribute dictionary; plus all 2^17-1 written bit strings of length <= 16, all 65 793 '
+         'states de-duplicated by the full attribute dictionary; plus all 2^17-1 written bit strings of length <= 16, all texts of <= 6 bytes that can spell escape sequences (StandardIO echo), all 65 793 '
          'inputs of length <= 2 read to EOF and beyond, all keyboard event scripts of <= 3 events over 32 event kinds (4-event '
          'scripts in thorough) x 40 reads via both constructors, and BrokenIO call sequences.',
          'A device state is its attribute dictionary (equal attributes, equal futures). Same-tic keyboard events are expected in script order.',
@@ -104,10 +104,10 @@ CHECKS = {
          'DESIGN.md section 3 C12'),
  'C03': ('exploration',
          'exhaustive enumeration of macro skeletons x identifier-collision assignments x file splits vs an independent AST inliner (image equality through the real assembler)',
-         '14 skeletons (param vs caller label, @ local vs argument, nested argument capture, rep iterator vs names, nested rep, '
+         '16 skeletons (param vs caller label, @ local vs argument, nested argument capture, rep iterator vs names, nested rep, '
          'caller label spelled like an iterator two levels down, arity overloading, < globals and > externs, namespaces with '
          '.rel and ..rel names, $, a local passed down, a label declared through a parameter, rep counts 0/1/3, three call '
-         'levels with equal names, iterator spelled like its own macro parameter) x every assignment of the pool {a,b,i} to '
+         'levels with equal names, iterator spelled like its own macro parameter, relative names climbing to the root, a rep that does not use its iterator) x every assignment of the pool {a,b,i} to '
          'the name slots (about 2 800 well-formed programs, 2 660 with a collision) x w x every 2-way file split: the image '
          'must equal the image of the program inlined by R4 on the AST; every worker process first assembles a program defining '
          'a, b, i as constants and then assembles every program next to the stl as well (no capture across assemblies).',
@@ -116,8 +116,8 @@ CHECKS = {
  'C14': ('exploration',
          'exhaustive error templates (error class x evaluation stage x width x version) and all single-token mutations of seed programs; outcome classification',
          '5 arithmetic faults x 16 evaluation stages (parse-time folding, constant definition/use, macro argument, rep count / '
-         'iterator, pad / segment / reserve argument, late label resolution in flip / jump / wflip / segment, $) and ~70 further '
-         'error templates (lexing, syntax, macros, labels, constants, directives, ranges, files) at every width and version, '
+         'iterator, pad / segment / reserve argument, late label resolution in flip / jump / wflip / segment, $) and ~75 further '
+         'error templates (lexing, syntax, macros incl. recursion through rep, labels, constants, directives, ranges, files) at every width and version, '
          'every sequence of <= 3 (4 thorough) primitive statements over a 16-statement alphabet, plus every deletion / duplication / swap / substitution (41-token alphabet) of every token of four seed programs (one '
          'with the stl): the outcome must be success or a FlipJumpException that is not the generic "Unknown exception" funnel '
          '(and names the offending identifier for templates that carry one), within 30 s, leaving no loadable output file.',
@@ -130,7 +130,8 @@ CHECKS = {
          'save/load must round-trip (also synthetic tables with unicode / 2 000 entries), and get_breakpoint_handler must resolve '
          'every exact label and every separator-delimited fragment of every name (incl. fragments with ( ) . : { -) to exactly '
          'the addresses of the labels containing it. Histories over one debug file: every sequence of <= 4 (5) operations over save / assemble / '
-         'replace / copy / load / handler x five spellings of the path; every read returns the table written last.',
+         'replace / copy / load / handler x five spellings of the path; every read returns the table written last. Exact-label sets mixing existing and unknown labels; an stl program\'s table after '
+         'assemblies under other short-name schemes equals the fresh-process table.',
          'The naming format is deliberately not pinned.',
          'DESIGN.md section 3 C16'),
  'C04': ('model_checking',
@@ -187,9 +188,9 @@ CHECKS = {
          'DESIGN.md section 3 C11'),
  'C13': ('model_checking',
          'explicit-state search over assemble-call histories in one process (forked children of a never-assembled parent); probe bytes vs a fresh interpreter process',
-         'Every history of depth <= 2 (3 thorough) over 17 assemble actions (stl programs at two widths, no-stl, werror, a parse failure '
+         'Every history of depth <= 2 (3 thorough) over 20 assemble actions (stl programs at two widths, no-stl, werror, a parse failure '
          'inside nested namespaces, a lexing error, an unknown macro after the cache was filled, recursion overflow with depth 5, depths '
-         '2000 and 4000, programs defining top-level constants, a rep-heavy program, the stl under other short names, another user short name, another directory) followed by eight '
+         '2000 and 4000, programs defining top-level constants, programs behind a 1- or 2-file stl prefix with one to three user files, a rep-heavy program, the stl under other short names, another user short name, another directory) followed by ten '
          'probe assemblies (different widths, versions, werror, programs using the constants\' names as labels, expressions nested 400 / 700 deep): the .fjm and .fjd bytes of every probe must equal those of a brand-new '
          'interpreter process (two reference processes with different hash seeds and directories must agree as well).',
          'Each history runs in a forked child of a parent that imported flipjump but never assembled. The process-global state key is reported, not used to merge histories.',
@@ -200,7 +201,7 @@ CHECKS = {
          'garbage, continue, the three continue-all spellings incl. mixed case, reads of words / unaligned / unmapped addresses / hex, bit '
          'and byte variables over a data segment with distinctive bits, help, unknown commands, empty lines, quit; running out = EOF) x '
          'every breakpoint subset of size <= 2 of the visited addresses + a never-visited one x 12 programs per width, through '
-         'fjm_run.run(breakpoint_handler=...): pause list (address, ops executed), values shown by reads, quit => keyboard-interrupt at '
+         'fjm_run.run(breakpoint_handler=...), plus sessions whose breakpoints are asked for by label (all subsets of 3 existing + 3 unknown labels): pause list (address, ops executed), values shown by reads, quit => keyboard-interrupt at '
          'the pause op count, otherwise output / IO calls / cause / op count / final memory equal the undebugged reference run.',
          'Messages are parsed only for addresses, op counts and values. Label / substring breakpoints are resolved in C16.',
          'DESIGN.md section 3 C15'),
